@@ -113,6 +113,8 @@ def run_impl(case):
 
 
 def model_requests(case, impl):
+    if "harness_exc" in impl:
+        return []
     wire = bytes.fromhex(impl["wire"])
     tbl = c14.wire_table(impl["recv"]["calls"])
     cfg = c14.cfg_of(case, impl)
@@ -147,6 +149,8 @@ def impl_view(case, impl):
 
 
 def spec_requests(case, impl):
+    if "harness_exc" in impl:
+        return []
     return [line(ID, "strict", c14.cfg_of(case, impl), c14.wire_frames(impl), c14.wire_table(impl["table"]))]
 
 
@@ -293,6 +297,8 @@ def stats(case, impl):
 
 
 def signature(case, impl, why):
+    if "harness_exc" in impl:
+        return "harness-escape/" + str(impl["harness_exc"]).split(":")[0]
     v = case.get("viol")
     cls = v["k"] if v else "limit-" + case["max_rel"][0] if case.get("max_rel") else "script"
     m = re.search(r"violation (\w+) at", why) or re.search(r"after the violation \((\w+) at", why)
